@@ -11,6 +11,7 @@ from . import codec, msggen, proj
 # (name, MaxDepth, MaxKids, NAttr, NRule, NUnits, MaxValLen, MaxAny, Decor, EscStyles, AllowEmptyAny, LeafKinds)
 GEN_QUICK = [
     ("leaves", 0, 2, 3, 2, 23, 1, 1, 0, 5, "FALSE", "KNoSub"),
+    ("attrs", 0, 2, 11, 4, 1, 1, 1, 0, 1, "FALSE", "KAll"),
     ("substr", 0, 2, 1, 1, 6, 1, 2, 0, 1, "FALSE", "KEqSub"),
     ("values2", 0, 2, 1, 1, 16, 2, 1, 0, 1, "FALSE", "KEq"),
     ("decor", 1, 2, 1, 1, 1, 1, 1, 1, 1, "FALSE", "KEqPresent"),
@@ -20,12 +21,12 @@ GEN_QUICK = [
 ]
 GEN_THOROUGH = GEN_QUICK + [
     ("values3", 0, 2, 1, 1, 16, 3, 1, 0, 1, "FALSE", "KEq"),
-    ("leaves-all-attrs", 0, 2, 8, 4, 23, 1, 1, 0, 5, "FALSE", "KNoSub"),
+    ("leaves-all-attrs", 0, 2, 11, 4, 23, 1, 1, 0, 5, "FALSE", "KNoSub"),
     ("substr-wide", 0, 2, 2, 1, 10, 1, 2, 0, 1, "FALSE", "KSub"),
     ("ext-wide", 0, 2, 4, 4, 6, 2, 1, 0, 1, "FALSE", "KExt"),
     ("shapes3", 3, 2, 1, 1, 1, 1, 1, 0, 1, "FALSE", "KEq"),
 ]
-SIM = ("sim", 5, 3, 8, 4, 23, 3, 2, 2, 5, "FALSE", "KAll")
+SIM = ("sim", 5, 3, 11, 4, 23, 3, 2, 2, 5, "FALSE", "KAll")
 INVS = ["ParseOfUnparse", "StrictWhenUndecorated", "NamesValid"]
 
 
@@ -153,7 +154,7 @@ def str_event(tree: t.Dict[str, t.Any]) -> t.Dict[str, t.Any]:
 
 
 # ---- random trees in the domain of C13 (D3, D4) -------------------------------------------------------------
-ATTRS = ["cn", "objectClass", "sn", "member;range-0-1", "userCertificate;binary", "1.2.840.113556.1.4.803", "2.5.4.3;lang-en", "a", "x-y-", "0.9.2342", "o;x-1;y-2"]
+ATTRS = ["cn", "CN", "Cn", "objectClass", "OBJECTCLASS", "objectclass", "sn", "SN", "member;range-0-1", "userCertificate;binary", "1.2.840.113556.1.4.803", "2.5.4.3;lang-en", "a", "x-y-", "0.9.2342", "o;x-1;y-2"]
 RULES = ["caseExactMatch", "1.2.840.113556.1.4.803", "2.5.13.5", "x-rule"]
 
 
@@ -333,6 +334,17 @@ def run_c15(tier: str, seed: int) -> int:
         # names that are not RFC 4512 valid, and the pinned ones
         texts += ["(0=a)", "(12=a)", "(1.2=a)", "(:rule;opt:=x)", "(cn:0:=x)", "(cn\n=a)", "(cn =a)", "(1..2=a)", "(01.2=a)", "(1.02=a)", "(-a=b)", "(a;=b)", "(a;;b=c)",
                   "(cn:1.2.3;x:=y)", "(cn:dn:2.5.13.5:=x)", "(:dn:=x)", "(cn:=)", "(٣=a)", "(cn٣=a)", "(cn;lang-２=x)", "(1.2२.4=*)", "(a:rule٢:=x)"]
+        # Unicode look-alikes of valid names, each right after its ASCII twin (a parser must not remember names loosely)
+        conf = {"s": "\u017f", "k": "\u212a", "K": "\u212a", "i": "\u0131", "ss": "\u00df", "ffi": "\ufb03", "fi": "\ufb01", "st": "\ufb06", "a": "\u0430", "e": "\u0435", "o": "\u043e"}
+        twins = ["(sn=Smith)", "(kind=x)", "(mass=1)", "(office=x)", "(first=x)", "(cn:caseExactMatch:=x)", "(:caseIgnoreMatch:=y)", "(street=x)", "(ou;lang-es=x)", "(description=x)",
+                 "(sn>=a)", "(kn~=a)", "(sn=a*b)", "(sn=*)"]
+        for tw in twins:
+            texts.append(tw)
+            for a_, u_ in conf.items():
+                if a_ in tw.split("=")[0]:
+                    head, sep, tail = tw.partition("=")
+                    texts.append(head.replace(a_, u_, 1) + sep + tail)
+                    texts.append(head.replace(a_, u_) + sep + tail)
         # arbitrary text
         alphabet = "()&|!=*\\:; a1.\n\t\x00é\U0001f600𐂀\udfff~<>"
         for _ in range(2000 if tier == "quick" else 40000):
